@@ -39,7 +39,7 @@ func (o *GenOpts) defaults() {
 		o.MinPlayersAtStart = 2
 	}
 	if o.Modes == nil {
-		o.Modes = []int{3, 2, 0}
+		o.Modes = []int{3, 2, 1}
 	}
 }
 
